@@ -76,40 +76,631 @@ theorem chunkBounds_tile {α : Type} (data : List α) (cs ov : Int) (hcs : 0 < c
     apply List.take_of_length_le
     omega
 
+def ChunkGood (cs : Int) (c : Chunk) : Prop :=
+  0 ≤ c.s ∧ c.s ≤ c.ks ∧ c.ke ≤ c.e ∧ c.e - c.s ≤ cs
+
+theorem chunkGood_test (n cs : Nat) (c : Chunk) (h : ChunkGood cs c) :
+    (ivSubset (clampIv n c.ks c.ke) (clampIv n c.s c.e) &&
+      decide ((clampIv n c.s c.e).2 - (clampIv n c.s c.e).1 ≤ cs)) = true := by
+  obtain ⟨h1, h2, h3, h4⟩ := h
+  simp only [ivSubset, Bool.and_eq_true, Bool.or_eq_true, beq_iff_eq, decide_eq_true_eq]
+  simp only [clampIv]
+  omega
+
+theorem loop_good (n cs ov : Int) (hcs : 0 < cs) (hov0 : 0 ≤ ov) (hov : ov < cs) :
+    ∀ (fuel : Nat) (sEnd keepEnd : Int) (acc : List Chunk),
+      (∀ c ∈ acc, ChunkGood cs c) → cs ≤ sEnd → keepEnd = sEnd - ov / 2 →
+      let r := loopCB n cs ov fuel sEnd keepEnd acc
+      (∀ c ∈ r.2.2, ChunkGood cs c) ∧ cs ≤ r.1 ∧ r.2.1 = r.1 - ov / 2 ∧
+        (fuel ≥ (n - sEnd).toNat → ¬ (r.1 - ov + cs < n)) := by
+  intro fuel
+  induction fuel with
+  | zero =>
+    intro sEnd keepEnd acc h1 h2 h3
+    simp only [loopCB]
+    refine ⟨h1, h2, h3, ?_⟩
+    intro hf; omega
+  | succ k ih =>
+    intro sEnd keepEnd acc h1 h2 h3
+    simp only [loopCB]
+    split
+    · rename_i hlt
+      have hse : sEnd - ov < sEnd - ov + cs := by omega
+      simp only [hse, if_true]
+      have := ih (sEnd - ov + cs) (sEnd - ov + cs - ov / 2)
+        (acc ++ [⟨sEnd - ov, sEnd - ov + cs, keepEnd, sEnd - ov + cs - ov / 2⟩])
+        (by
+          intro c hc
+          rcases List.mem_append.1 hc with hc | hc
+          · exact h1 c hc
+          · have : c = ⟨sEnd - ov, sEnd - ov + cs, keepEnd, sEnd - ov + cs - ov / 2⟩ := by simpa using hc
+            subst this
+            simp only [ChunkGood]
+            omega)
+        (by omega) rfl
+      obtain ⟨a, b, c, d⟩ := this
+      refine ⟨a, b, c, ?_⟩
+      intro hf
+      apply d
+      omega
+    · rename_i hge
+      refine ⟨h1, h2, h3, ?_⟩
+      intro _; exact hge
+
 theorem chunkBounds_tileOK (n cs ov : Nat) (hcs : 0 < cs) (hov : ov < cs) :
     tileOK n cs (chunkBounds n cs ov) = true := by
-  sorry
+  unfold tileOK
+  rw [Bool.and_eq_true]
+  constructor
+  · have h := chunkBounds_tile (List.range n) (cs : Int) (ov : Int) (by omega) (by omega) (by omega)
+    rw [List.length_range] at h
+    rw [h]; simp
+  · rw [List.all_eq_true]
+    intro c hc
+    apply chunkGood_test
+    revert c
+    unfold chunkBounds
+    simp only []
+    have := loop_good (n : Int) cs ov (by omega) (by omega) (by omega) (n : Int).toNat cs (cs - ov / 2)
+      [⟨0, cs, 0, cs - ov / 2⟩]
+      (by
+        intro c hc
+        have : c = ⟨0, cs, 0, (cs:Int) - ov / 2⟩ := by simpa using hc
+        subst this
+        simp only [ChunkGood]
+        omega) (by omega) rfl
+    simp only at this
+    generalize loopCB (n : Int) cs ov (n : Int).toNat cs (cs - ov / 2) [⟨0, cs, 0, cs - ov / 2⟩] = r at this ⊢
+    obtain ⟨sEnd, keepEnd, acc⟩ := r
+    simp only at this ⊢
+    obtain ⟨h1, h2, h3, h4⟩ := this
+    split
+    · intro c hc
+      rcases List.mem_append.1 hc with hc | hc
+      · exact h1 c hc
+      · have : c = ⟨sEnd - ov, n, keepEnd, n⟩ := by simpa using hc
+        subst this
+        simp only [ChunkGood]
+        omega
+    · exact h1
+
+/-- arithmetic progression `a, a+step, …` with `k` elements -/
+def ap (step : Nat) : Nat → Nat → List Nat
+  | _, 0 => []
+  | a, k+1 => a :: ap step (a + step) k
+
+theorem map_range_ap (step : Nat) : ∀ (k a : Nat),
+    (List.range k).map (fun i => a + i * step) = ap step a k := by
+  intro k
+  induction k with
+  | zero => intro a; simp [ap]
+  | succ k ih =>
+    intro a
+    rw [List.range_succ_eq_map, List.map_cons, List.map_map, ap, ← ih (a + step)]
+    congr 1
+    · simp
+    · apply List.map_congr_left
+      intro i _
+      simp only [Function.comp, Nat.succ_eq_add_one, Nat.add_mul, Nat.one_mul]
+      omega
+
+theorem pyRange_eq_ap (n size cs : Nat) (hcs : 0 < cs) :
+    pyRange n (n + size + 1) cs = n :: ap cs (n + cs) (size / cs) := by
+  unfold pyRange
+  rw [map_range_ap]
+  have : (n + size + 1 - n + cs - 1) / cs = size / cs + 1 := by
+    have : n + size + 1 - n + cs - 1 = size + cs := by omega
+    rw [this, Nat.add_div_right _ hcs]
+  rw [this, ap]
+
+theorem ap_strictInc (cs : Nat) (hcs : 0 < cs) : ∀ k a, strictInc (ap cs a k) = true := by
+  intro k
+  induction k with
+  | zero => intro a; simp [ap, strictInc]
+  | succ k ih =>
+    intro a
+    cases k with
+    | zero => simp [ap, strictInc]
+    | succ k =>
+      have := ih (a + cs)
+      simp only [ap] at this ⊢
+      simp only [strictInc, Bool.and_eq_true, decide_eq_true_eq]
+      exact ⟨by omega, this⟩
+
+theorem ap_gapsLe (cs : Nat) : ∀ k a, gapsLe cs (ap cs a k) = true := by
+  intro k
+  induction k with
+  | zero => intro a; simp [ap, gapsLe]
+  | succ k ih =>
+    intro a
+    cases k with
+    | zero => simp [ap, gapsLe]
+    | succ k =>
+      have := ih (a + cs)
+      simp only [ap] at this ⊢
+      simp only [gapsLe, Bool.and_eq_true, decide_eq_true_eq]
+      exact ⟨by omega, this⟩
+
+theorem ap_getLast (cs : Nat) : ∀ k a, (ap cs a (k+1)).getLast? = some (a + k * cs) := by
+  intro k
+  induction k with
+  | zero => intro a; simp [ap]
+  | succ k ih =>
+    intro a
+    have := ih (a + cs)
+    rw [ap]
+    simp only [ap] at this ⊢
+    rw [List.getLast?_cons_cons, this]
+    simp only [Nat.add_mul, Nat.one_mul, Option.some.injEq]
+    omega
+
+theorem strictInc_append : ∀ (b ext : List Nat) (n : Nat), strictInc b = true →
+    b.getLast? = some n → strictInc (n :: ext) = true → strictInc (b ++ ext) = true := by
+  intro b
+  induction b with
+  | nil => intro ext n _ h; simp at h
+  | cons x t ih =>
+    intro ext n hs hl he
+    cases t with
+    | nil =>
+      simp only [List.getLast?_singleton, Option.some.injEq] at hl
+      subst hl; exact he
+    | cons y t' =>
+      simp only [strictInc, Bool.and_eq_true, decide_eq_true_eq] at hs
+      rw [List.getLast?_cons_cons] at hl
+      have := ih ext n hs.2 hl he
+      simp only [List.cons_append] at this ⊢
+      simp only [strictInc, Bool.and_eq_true, decide_eq_true_eq]
+      exact ⟨hs.1, this⟩
+
+theorem gapsLe_append (cs : Nat) : ∀ (b ext : List Nat) (n : Nat), gapsLe cs b = true →
+    b.getLast? = some n → gapsLe cs (n :: ext) = true → gapsLe cs (b ++ ext) = true := by
+  intro b
+  induction b with
+  | nil => intro ext n _ h; simp at h
+  | cons x t ih =>
+    intro ext n hs hl he
+    cases t with
+    | nil =>
+      simp only [List.getLast?_singleton, Option.some.injEq] at hl
+      subst hl; exact he
+    | cons y t' =>
+      simp only [gapsLe, Bool.and_eq_true, decide_eq_true_eq] at hs
+      rw [List.getLast?_cons_cons] at hl
+      have := ih ext n hs.2 hl he
+      simp only [List.cons_append] at this ⊢
+      simp only [gapsLe, Bool.and_eq_true, decide_eq_true_eq]
+      exact ⟨hs.1, this⟩
+
+theorem getLast?_append_of (b ext : List Nat) (n : Nat) (hl : b.getLast? = some n) :
+    (b ++ ext).getLast? = (n :: ext).getLast? := by
+  cases ext with
+  | nil => simp [hl]
+  | cons e t => simp [List.getLast?_append, List.getLast?_cons]
+
+/-- what one loop iteration of `_get_chunk_bounds` appends -/
+theorem gcbStep_spec (cs : Nat) (hcs : 0 < cs) (b : List Nat) (n size : Nat)
+    (hb : b = [] ∨ b.getLast? = some n) :
+    ∃ ext, gcbStep cs (b, n) size = ((if b = [] then [n] else b) ++ ext, n + size) ∧
+      strictInc (n :: ext) = true ∧ gapsLe cs (n :: ext) = true ∧
+      (n :: ext).getLast? = some (n + size) := by
+  have hm : size / cs * cs ≤ size := Nat.div_mul_le_self size cs
+  have hm2 : size < size / cs * cs + cs := by
+    have := Nat.lt_div_mul_add (a := size) hcs
+    omega
+  generalize hmd : size / cs = m at hm hm2
+  have hlastT : (n :: ap cs (n + cs) m).getLast? = some (n + m * cs) := ap_getLast cs m n
+  have hsT : strictInc (n :: ap cs (n + cs) m) = true := ap_strictInc cs hcs (m+1) n
+  have hgT : gapsLe cs (n :: ap cs (n + cs) m) = true := ap_gapsLe cs (m+1) n
+  generalize ht : ap cs (n + cs) m = t at hlastT hsT hgT
+  -- state after appending the range part
+  have hb' : (if b = [] then [n] else b).getLast? = some n := by
+    rcases hb with hb | hb
+    · simp [hb]
+    · have : b ≠ [] := by intro h; simp [h] at hb
+      simp [this, hb]
+  have hstep : gcbStep cs (b, n) size =
+      (if ((if b = [] then [n] else b) ++ t).getLast? != some (n + size)
+        then ((if b = [] then [n] else b) ++ t) ++ [n + size]
+        else ((if b = [] then [n] else b) ++ t), n + size) := by
+    simp only [gcbStep]
+    rw [pyRange_eq_ap n size cs hcs, hmd, ht]
+    rcases hb with hb | hb
+    · subst hb
+      simp
+    · have : b ≠ [] := by intro h; simp [h] at hb
+      simp [this, hb]
+  rw [getLast?_append_of _ t n hb', hlastT] at hstep
+  by_cases hsz : m * cs = size
+  · refine ⟨t, ?_, hsT, hgT, ?_⟩
+    · rw [hstep]; simp [hsz]
+    · rw [hlastT, hsz]
+  · refine ⟨t ++ [n + size], ?_, ?_, ?_, ?_⟩
+    · rw [hstep]
+      have : (some (n + m * cs) != some (n + size)) = true := by
+        simp only [bne_iff_ne, ne_eq, Option.some.injEq]; omega
+      simp [this]
+    · have := strictInc_append (n :: t) [n + size] (n + m * cs) hsT hlastT (by
+        simp [strictInc]; omega)
+      simpa using this
+    · have := gapsLe_append cs (n :: t) [n + size] (n + m * cs) hgT hlastT (by
+        simp [gapsLe]; omega)
+      simpa using this
+    · rw [← List.cons_append, List.getLast?_append]; simp
+
+def GInv (cs : Nat) (b : List Nat) (n : Nat) : Prop :=
+  b.head? = some 0 ∧ b.getLast? = some n ∧ strictInc b = true ∧ gapsLe cs b = true
+
+theorem gcbStep_inv (cs : Nat) (hcs : 0 < cs) (b : List Nat) (n size : Nat) (h : GInv cs b n) :
+    ∃ b', gcbStep cs (b, n) size = (b', n + size) ∧ GInv cs b' (n + size) ∧ ∀ x ∈ b, x ∈ b' := by
+  obtain ⟨h0, hl, hs, hg⟩ := h
+  have hne : b ≠ [] := by intro h; simp [h] at hl
+  obtain ⟨ext, he, hse, hge, hle⟩ := gcbStep_spec cs hcs b n size (Or.inr hl)
+  simp only [hne, if_false] at he
+  refine ⟨b ++ ext, he, ⟨?_, ?_, ?_, ?_⟩, ?_⟩
+  · cases b with
+    | nil => exact absurd rfl hne
+    | cons x t => simpa using h0
+  · rw [getLast?_append_of b ext n hl, hle]
+  · exact strictInc_append b ext n hs hl hse
+  · exact gapsLe_append cs b ext n hg hl hge
+  · intro x hx; exact List.mem_append_left _ hx
+
+theorem gcbStep_init (cs : Nat) (hcs : 0 < cs) (size : Nat) :
+    ∃ b', gcbStep cs ([], 0) size = (b', size) ∧ GInv cs b' size := by
+  obtain ⟨ext, he, hse, hge, hle⟩ := gcbStep_spec cs hcs [] 0 size (Or.inl rfl)
+  simp only [if_true, Nat.zero_add, List.singleton_append] at he hle
+  exact ⟨0 :: ext, he, rfl, hle, hse, hge⟩
+
+theorem fold_inv (cs : Nat) (hcs : 0 < cs) : ∀ (sizes : List Nat) (b : List Nat) (n : Nat),
+    GInv cs b n →
+    ∃ b', sizes.foldl (gcbStep cs) (b, n) = (b', n + sizes.sum) ∧ GInv cs b' (n + sizes.sum) ∧
+      (∀ x ∈ b, x ∈ b') ∧ ∀ p ∈ partBoundsFrom n sizes, p ∈ b' := by
+  intro sizes
+  induction sizes with
+  | nil =>
+    intro b n h
+    refine ⟨b, by simp, by simpa using h, fun x hx => hx, ?_⟩
+    intro p hp
+    simp only [partBoundsFrom, List.mem_singleton] at hp
+    subst hp
+    exact List.mem_of_getLast? h.2.1
+  | cons s rest ih =>
+    intro b n h
+    obtain ⟨b1, e1, i1, m1⟩ := gcbStep_inv cs hcs b n s h
+    obtain ⟨b2, e2, i2, m2, p2⟩ := ih b1 (n + s) i1
+    have hsum : n + (s :: rest).sum = n + s + rest.sum := by simp [Nat.add_assoc]
+    refine ⟨b2, ?_, ?_, fun x hx => m2 x (m1 x hx), ?_⟩
+    · rw [List.foldl_cons, e1, e2, hsum]
+    · rw [hsum]; exact i2
+    · intro p hp
+      simp only [partBoundsFrom, List.mem_cons] at hp
+      rcases hp with hp | hp
+      · subst hp; exact m2 _ (m1 _ (List.mem_of_getLast? h.2.1))
+      · exact p2 p hp
 
 theorem getChunkBounds_ok (sizes : List Nat) (cs : Nat) (hcs : 0 < cs) (hne : sizes ≠ []) :
     boundsOK sizes cs (getChunkBounds sizes cs) = true := by
-  sorry
+  cases sizes with
+  | nil => exact absurd rfl hne
+  | cons s rest =>
+    obtain ⟨b1, e1, i1⟩ := gcbStep_init cs hcs s
+    obtain ⟨b2, e2, ⟨h0, hl, hs, hg⟩, m2, p2⟩ := fold_inv cs hcs rest b1 s i1
+    have hb : getChunkBounds (s :: rest) cs = b2 := by
+      simp only [getChunkBounds, List.foldl_cons, e1, e2]
+    rw [hb]
+    simp only [boundsOK, Bool.and_eq_true, List.all_eq_true, List.contains_iff_mem]
+    refine ⟨⟨⟨⟨?_, ?_⟩, hs⟩, ?_⟩, hg⟩
+    · simp [h0]
+    · simp [hl]
+    · intro p hp
+      simp only [partBounds, partBoundsFrom, List.mem_cons, Nat.zero_add] at hp
+      rcases hp with hp | hp
+      · subst hp
+        have : (0 : Nat) ∈ b1 := List.mem_of_head? i1.1
+        exact m2 _ this
+      · exact p2 p hp
+
+theorem chain_base (b : List Nat) (n : Nat) : ∀ a, b.head? = some a →
+    b.getLast? = some n → strictInc b = true → chainFrom a (b.zip b.tail) = some n := by
+  induction b with
+  | nil => intro a h; simp at h
+  | cons x t ih =>
+    intro a h0 hl hs
+    simp only [List.head?_cons, Option.some.injEq] at h0
+    subst h0
+    cases t with
+    | nil =>
+      simp only [List.getLast?_singleton, Option.some.injEq] at hl
+      simp [chainFrom, hl]
+    | cons y t' =>
+      simp only [strictInc, Bool.and_eq_true, decide_eq_true_eq] at hs
+      rw [List.getLast?_cons_cons] at hl
+      have := ih y rfl hl hs.2
+      simp only [List.tail_cons, List.zip_cons_cons, chainFrom]
+      have hne : (x == y) = false := by simp; omega
+      simp only [hne, Bool.false_eq_true, if_false, beq_self_eq_true, Bool.true_and, decide_eq_true_eq, hs.1, if_true]
+      simpa using this
 
 theorem iterChunksBase_tile (b : List Nat) (n : Nat) (h0 : b.head? = some 0)
     (hl : b.getLast? = some n) (hs : strictInc b = true) :
     intervalsTile n (iterChunksBase b) = true := by
-  sorry
+  unfold intervalsTile iterChunksBase
+  rw [chain_base b n 0 h0 hl hs]; simp
 
 theorem reader_iter_tile (sizes : List Nat) (cs : Nat) (hcs : 0 < cs) (hne : sizes ≠ []) :
     intervalsTile sizes.sum (iterChunksBase (getChunkBounds sizes cs)) = true := by
-  sorry
+  have h := getChunkBounds_ok sizes cs hcs hne
+  simp only [boundsOK, Bool.and_eq_true, beq_iff_eq] at h
+  obtain ⟨⟨⟨⟨h0, hl⟩, hs⟩, _⟩, _⟩ := h
+  exact iterChunksBase_tile _ _ h0 hl hs
+
+theorem chainFrom_append : ∀ (l1 l2 : List (Nat × Nat)) (cur : Nat),
+    chainFrom cur (l1 ++ l2) = (chainFrom cur l1).bind (fun c => chainFrom c l2) := by
+  intro l1
+  induction l1 with
+  | nil => intro l2 cur; simp [chainFrom]
+  | cons p t ih =>
+    intro l2 cur
+    obtain ⟨a, b⟩ := p
+    simp only [List.cons_append, chainFrom]
+    split
+    · exact ih l2 cur
+    · split
+      · exact ih l2 b
+      · rfl
+
+/-- mapping an index-level chain through a function that is strictly increasing on `[0, nc]` -/
+theorem chainFrom_map (f : Nat → Nat) (nc : Nat) (hf : ∀ i j, i < j → j ≤ nc → f i < f j) :
+    ∀ (l : List (Nat × Nat)) (cur fin : Nat), chainFrom cur l = some fin →
+      (∀ p ∈ l, p.1 ≤ nc ∧ p.2 ≤ nc) →
+      chainFrom (f cur) (l.map (fun p => (f p.1, f p.2))) = some (f fin) := by
+  intro l
+  induction l with
+  | nil => intro cur fin h _; simp [chainFrom] at h ⊢; exact congrArg f h
+  | cons p t ih =>
+    intro cur fin h hb
+    obtain ⟨a, b⟩ := p
+    have hab := hb (a, b) (List.mem_cons_self)
+    have ht : ∀ p ∈ t, p.1 ≤ nc ∧ p.2 ≤ nc := fun p hp => hb p (List.mem_cons_of_mem _ hp)
+    simp only [chainFrom, List.map_cons] at h ⊢
+    by_cases e : a = b
+    · subst e
+      simp only [beq_self_eq_true, if_true] at h ⊢
+      exact ih cur fin h ht
+    · have e1 : (a == b) = false := by simpa using e
+      simp only [e1, Bool.false_eq_true, if_false] at h
+      by_cases c : (a == cur && decide (a < b)) = true
+      · simp only [c, if_true] at h
+        simp only [Bool.and_eq_true, beq_iff_eq, decide_eq_true_eq] at c
+        obtain ⟨c1, c2⟩ := c
+        subst c1
+        have hlt := hf a b c2 hab.2
+        have e2 : (f a == f b) = false := by simp; omega
+        simp only [e2, Bool.false_eq_true, if_false, beq_self_eq_true, Bool.true_and, decide_eq_true_eq, hlt, if_true]
+        exact ih b fin h ht
+      · simp only [c] at h
+        exact absurd h (by simp)
+
+theorem nBatches_facts (bs nc : Nat) (hbs : 0 < bs) (hnc : 1 ≤ nc) :
+    1 ≤ nBatches bs nc ∧ nc ≤ bs * nBatches bs nc ∧ bs * (nBatches bs nc - 1) < nc := by
+  unfold nBatches
+  have h1 := Nat.div_add_mod (nc + bs - 1) bs
+  have h2 := Nat.mod_lt (nc + bs - 1) hbs
+  generalize (nc + bs - 1) / bs = q at h1 ⊢
+  generalize (nc + bs - 1) % bs = r at h1 h2
+  have hq : 1 ≤ q := by
+    rcases Nat.eq_zero_or_pos q with h | h
+    · subst h; simp at h1; omega
+    · exact h
+  obtain ⟨q', rfl⟩ : ∃ q', q = q' + 1 := ⟨q - 1, by omega⟩
+  simp only [Nat.mul_add, Nat.mul_one, Nat.add_sub_cancel] at h1 ⊢
+  omega
+
+/-- chain through the first `k+1` batches -/
+theorem mts_prefix (bs nc : Nat) (hbs : 0 < bs) (hnc : 1 ≤ nc) : ∀ k, bs * k < nc →
+    chainFrom 0 ((List.range (k+1)).map (mtsBatch bs nc)) = some (min (bs * (k+1)) nc - 1) := by
+  intro k
+  induction k with
+  | zero =>
+    intro _
+    simp only [List.range_succ, List.range_zero, List.nil_append, List.map_cons, List.map_nil, mtsBatch,
+      chainFrom, Nat.mul_zero, Nat.zero_add, Nat.mul_one]
+    split
+    · rename_i h; simp only [beq_iff_eq] at h; simp only [Option.some.injEq]; omega
+    · rename_i h
+      simp only [beq_iff_eq] at h
+      have : 0 < max (0 - 1) (min bs nc - 1) := by omega
+      simp only [beq_self_eq_true, Bool.true_and, decide_eq_true_eq, this, if_true, Option.some.injEq]
+      omega
+  | succ k ih =>
+    intro hk
+    have hk' : bs * k < nc := by
+      simp only [Nat.mul_add, Nat.mul_one] at hk; omega
+    rw [List.range_succ, List.map_append, chainFrom_append, ih hk']
+    simp only [Nat.mul_add, Nat.mul_one] at hk ⊢
+    simp only [Option.bind_some, List.map_cons, List.map_nil, mtsBatch, chainFrom, Nat.mul_add, Nat.mul_one]
+    generalize bs * k = m at hk hk'
+    have e1 : min (m + bs) nc - 1 = m + bs - 1 := by omega
+    split
+    · rename_i h; simp only [beq_iff_eq] at h; simp only [Option.some.injEq]; omega
+    · rename_i h
+      simp only [beq_iff_eq] at h
+      have c : (m + bs - 1 == min (m + bs) nc - 1 &&
+          decide (m + bs - 1 < max (m + bs - 1) (min (m + bs + bs) nc - 1))) = true := by
+        simp only [Bool.and_eq_true, beq_iff_eq, decide_eq_true_eq]; omega
+      simp only [c, if_true, Option.some.injEq]
+      omega
+
+theorem iterMtsIdx_chain (bs nc : Nat) (hbs : 0 < bs) (hnc : 1 ≤ nc) :
+    chainFrom 0 (iterMtsIdx bs nc) = some nc ∧ ∀ p ∈ iterMtsIdx bs nc, p.1 ≤ nc ∧ p.2 ≤ nc := by
+  obtain ⟨f1, f2, f3⟩ := nBatches_facts bs nc hbs hnc
+  generalize hq : nBatches bs nc = q at f1 f2 f3
+  obtain ⟨k, rfl⟩ : ∃ k, q = k + 1 := ⟨q - 1, by omega⟩
+  simp only [Nat.add_sub_cancel] at f3
+  have hlast : ((List.range (k+1)).map (mtsBatch bs nc)).getLast? = some (mtsBatch bs nc k) := by
+    rw [List.range_succ, List.map_append]; simp
+  have hl2 : (mtsBatch bs nc k).2 = nc - 1 := by
+    simp only [mtsBatch]
+    simp only [Nat.mul_add, Nat.mul_one] at f2 ⊢
+    omega
+  have hidx : iterMtsIdx bs nc = (List.range (k+1)).map (mtsBatch bs nc) ++ [(nc - 1, nc - 1 + 1)] := by
+    simp only [iterMtsIdx, hq, hlast, hl2]
+  rw [hidx]
+  constructor
+  · rw [chainFrom_append, mts_prefix bs nc hbs hnc k f3]
+    have e : min (bs * (k + 1)) nc - 1 = nc - 1 := by omega
+    have e1 : (nc - 1 == nc - 1 + 1) = false := by simp
+    simp [e, chainFrom, e1]
+    omega
+  · intro p hp
+    rcases List.mem_append.1 hp with hp | hp
+    · simp only [List.mem_map, List.mem_range] at hp
+      obtain ⟨i, hi, rfl⟩ := hp
+      have : bs * i ≤ bs * k := Nat.mul_le_mul_left bs (by omega)
+      simp only [mtsBatch]
+      omega
+    · simp only [List.mem_singleton] at hp
+      subst hp
+      simp only; omega
+
+theorem strictInc_pairwise : ∀ l : List Nat, strictInc l = true → l.Pairwise (· < ·) := by
+  intro l
+  induction l with
+  | nil => intro _; exact List.Pairwise.nil
+  | cons a t ih =>
+    intro h
+    cases t with
+    | nil => simp
+    | cons b t' =>
+      simp only [strictInc, Bool.and_eq_true, decide_eq_true_eq] at h
+      have hp := ih h.2
+      refine List.Pairwise.cons ?_ hp
+      intro x hx
+      rcases List.mem_cons.1 hx with hx | hx
+      · subst hx; exact h.1
+      · have := (List.pairwise_cons.1 hp).1 x hx
+        omega
 
 theorem iterChunksMts_tile (bs : Nat) (hbs : 0 < bs) (cb : List Nat) (n : Nat)
     (h0 : cb.head? = some 0) (hl : cb.getLast? = some n) (hs : strictInc cb = true)
     (hlen : 2 ≤ cb.length) :
     intervalsTile n (iterChunksMts bs cb) = true := by
-  sorry
+  have hp := strictInc_pairwise cb hs
+  rw [List.pairwise_iff_getElem] at hp
+  have hf : ∀ i j, i < j → j ≤ cb.length - 1 → cb.getD i 0 < cb.getD j 0 := by
+    intro i j hij hj
+    have hj' : j < cb.length := by omega
+    have hi' : i < cb.length := by omega
+    have := hp i j hi' hj' hij
+    simpa [List.getD_eq_getElem?_getD, hi', hj'] using this
+  obtain ⟨c1, c2⟩ := iterMtsIdx_chain bs (cb.length - 1) hbs (by omega)
+  have := chainFrom_map (fun i => cb.getD i 0) (cb.length - 1) hf _ 0 (cb.length - 1) c1 c2
+  have e0 : cb.getD 0 0 = 0 := by
+    cases cb with
+    | nil => simp at h0
+    | cons x t => simpa using h0
+  have en : cb.getD (cb.length - 1) 0 = n := by
+    rw [List.getLast?_eq_getElem?] at hl
+    simp [List.getD_eq_getElem?_getD, hl]
+  simp only [e0, en] at this
+  unfold intervalsTile iterChunksMts
+  rw [this]; simp
+
+theorem excerptsLoop_inv (n step size : Int) (hs : 0 ≤ size) (hst : size ≤ step) :
+    ∀ (fuel i : Nat) (prev : Int), prev ≤ (i : Int) * step →
+      excerptsChain n size prev (excerptsLoop n step size fuel i) = true ∧
+      (excerptsLoop n step size fuel i).length ≤ fuel := by
+  intro fuel
+  induction fuel with
+  | zero => intro i prev _; simp [excerptsLoop, excerptsChain]
+  | succ f ih =>
+    intro i prev hp
+    simp only [excerptsLoop]
+    split
+    · simp [excerptsChain]
+    · rename_i hlt
+      have hnext : min ((i : Int) * step + size) n ≤ ((i + 1 : Nat) : Int) * step := by
+        have : ((i + 1 : Nat) : Int) * step = (i : Int) * step + step := by
+          rw [Int.natCast_add, Int.add_mul]; simp
+        omega
+      obtain ⟨h1, h2⟩ := ih (i + 1) (min ((i : Int) * step + size) n) hnext
+      simp only [excerptsChain, Bool.and_eq_true, decide_eq_true_eq, List.length_cons]
+      refine ⟨⟨⟨⟨⟨hp, ?_⟩, ?_⟩, ?_⟩, h1⟩, by omega⟩ <;> omega
+
+theorem excerptStep_ge (n k size : Int) : size ≤ excerptStep n k size := by
+  unfold excerptStep; omega
+
+theorem excerpts_chain (n k size : Int) (hs : 0 ≤ size) :
+    excerptsChain n size 0 (excerpts n k size) = true ∧ (excerpts n k size).length ≤ k.toNat := by
+  unfold excerpts
+  exact excerptsLoop_inv n _ size hs (excerptStep_ge n k size) k.toNat 0 0 (by simp)
 
 theorem excerpts_ok (n k size : Int) (hn : 0 ≤ n) (hk : 2 ≤ k) (hs : 0 ≤ size) :
     excerptsOK n k size (excerpts n k size) = true := by
-  sorry
+  have _ := hn
+  obtain ⟨h1, h2⟩ := excerpts_chain n k size hs
+  simp only [excerptsOK, Bool.and_eq_true, decide_eq_true_eq]
+  exact ⟨h1, by omega⟩
+
 
 theorem getExcerpts_short {α : Type} (data : List α) (k size : Nat)
     (h : data.length < k * size) : getExcerpts data k size = data := by
   simp [getExcerpts, h]
 
+theorem chain_sublist {α : Type} (data : List α) (n size : Int) :
+    ∀ (l : List (Int × Int)) (prev : Int), 0 ≤ prev → excerptsChain n size prev l = true →
+      ((l.map (fun p => pySlice data p.1 p.2)).flatten).Sublist (data.drop prev.toNat) ∧
+      ((l.map (fun p => pySlice data p.1 p.2)).flatten).length ≤ l.length * size.toNat := by
+  intro l
+  induction l with
+  | nil => intro prev _ _; simp
+  | cons p t ih =>
+    intro prev hp h
+    obtain ⟨a, b⟩ := p
+    simp only [excerptsChain, Bool.and_eq_true, decide_eq_true_eq] at h
+    obtain ⟨⟨⟨⟨h1, h2⟩, h3⟩, h4⟩, h5⟩ := h
+    obtain ⟨i1, i2⟩ := ih b (by omega) h5
+    simp only [List.map_cons, List.flatten_cons, List.length_append, List.length_cons]
+    constructor
+    · have e : data.drop a.toNat =
+          (data.drop a.toNat).take (b.toNat - a.toNat) ++ data.drop b.toNat := by
+        have : data.drop b.toNat = (data.drop a.toNat).drop (b.toNat - a.toNat) := by
+          rw [List.drop_drop]; congr 1; omega
+        rw [this, List.take_append_drop]
+      have s1 : (pySlice data a b ++ (t.map (fun p => pySlice data p.1 p.2)).flatten).Sublist
+          (data.drop a.toNat) := by
+        rw [e]
+        exact List.Sublist.append (List.Sublist.refl _) i1
+      refine s1.trans ?_
+      have : data.drop a.toNat = (data.drop prev.toNat).drop (a.toNat - prev.toNat) := by
+        rw [List.drop_drop]; congr 1; omega
+      rw [this]
+      exact List.drop_sublist _ _
+    · have : (pySlice data a b).length ≤ size.toNat := by
+        simp only [pySlice, List.length_take, List.length_drop]; omega
+      rw [Nat.add_mul]; omega
+
 theorem getExcerpts_sublist {α : Type} (data : List α) (k size : Nat) (hs : 0 < size)
     (hlen : k * size ≤ data.length) :
     (getExcerpts data k size).Sublist data ∧ (getExcerpts data k size).length ≤ k * size := by
-  sorry
+  unfold getExcerpts
+  have h1 : ¬ data.length < k * size := by omega
+  simp only [h1, if_false]
+  split
+  · simp
+  · split
+    · rename_i hk1
+      subst hk1
+      refine ⟨List.take_sublist _ _, ?_⟩
+      simp only [List.length_take]; omega
+    · rename_i hk0 hk1
+      obtain ⟨c1, c2⟩ := excerpts_chain (data.length : Int) (k : Int) (size : Int) (by omega)
+      obtain ⟨s1, s2⟩ := chain_sublist data _ _ _ 0 (by omega) c1
+      refine ⟨by simpa using s1, ?_⟩
+      have : (excerpts (data.length : Int) k size).length * (size : Int).toNat ≤ k * size := by
+        simp only [Int.toNat_natCast] at c2 ⊢
+        exact Nat.mul_le_mul_right _ c2
+      omega
 
 end PhyVerif.C16.Lemmas
